@@ -30,6 +30,29 @@ def _flatten(dic):
         yield dic
 
 
+def _struct_key(dic):
+    """hashable description of the structure of the arguments: keys, container
+    types, trailing shapes and dtypes of the arrays, values of everything else"""
+    if isinstance(dic, dict):
+        return (
+            "dict",
+            tuple((k, _struct_key(dic[k])) for k in sorted(dic.keys())),
+        )
+    if isinstance(dic, (list, tuple)):
+        return (type(dic).__name__, tuple(_struct_key(v) for v in dic))
+    if isinstance(dic, (tf.Tensor, np.ndarray, tf.TensorSpec)):
+        return (
+            "array",
+            tuple(dic.shape[1:]),
+            tf.as_dtype(dic.dtype).name,
+        )
+    try:
+        hash(dic)
+        return ("value", dic)
+    except TypeError:
+        return ("value", repr(dic))
+
+
 class Count:
     def __init__(self, idx=0):
         self.idx = 0
@@ -63,7 +86,9 @@ class WrapFun:
     def __call__(self, *args, **kwargs):
 
         new_x = list(_flatten((args, kwargs)))
-        idx = len(new_x)
+        # the traced function is specific to the structure of the arguments,
+        # not only to the number of arrays in it
+        idx = _struct_key((args, kwargs))
 
         if idx not in self.cached_f:
             self.struct[idx] = _wrap_struct((args, kwargs))
